@@ -10,6 +10,7 @@ pub mod c09;
 pub mod c12;
 pub mod c16;
 pub mod c17;
+pub mod c19;
 pub mod cpu;
 
 pub fn all() -> Vec<Box<dyn Property>> {
@@ -26,5 +27,6 @@ pub fn all() -> Vec<Box<dyn Property>> {
         Box::new(c12::C12),
         Box::new(c16::C16),
         Box::new(c17::C17),
+        Box::new(c19::C19),
     ]
 }
